@@ -1181,10 +1181,14 @@ impl CraneliftCompiler {
                 | ebpf::JSLE_IMM32
                 | ebpf::JSLE_REG32
                 | ebpf::JSET_IMM32
-                | ebpf::JSET_REG32
-                | ebpf::EXIT
-                | ebpf::TAIL_CALL => {
+                | ebpf::JSET_REG32 => {
                     self.prepare_jump_blocks(bcx, insn_ptr, &insn);
+                }
+                // Not a branch: only the next instruction starts a new block; the offset
+                // field is unused and may hold anything
+                ebpf::EXIT | ebpf::TAIL_CALL => {
+                    let unused_off = Insn { off: 0, ..insn.clone() };
+                    self.prepare_jump_blocks(bcx, insn_ptr, &unused_off);
                 }
                 _ => {}
             }
